@@ -403,6 +403,13 @@ func rewrite(path, rel string) (int, error) {
 			} else {
 				add(off(im.Path.Pos()), len(im.Path.Value), name+` "github.com/spikeekips/mitum/simrt/srand"`)
 			}
+		case "golang.org/x/sync/semaphore":
+			// the weighted semaphore is a synchronisation primitive like the locks: its simulator copy yields
+			if im.Name != nil {
+				add(off(im.Path.Pos()), len(im.Path.Value), `"github.com/spikeekips/mitum/simrt/ssem"`)
+			} else {
+				add(off(im.Path.Pos()), len(im.Path.Value), `semaphore "github.com/spikeekips/mitum/simrt/ssem"`)
+			}
 		case "math/rand":
 			name := "rand"
 			if im.Name != nil {
